@@ -1,1 +1,194 @@
-(* C05 stub: to be written *)
+(* C05 — Diffusion attenuates each coherence pathway by exp(-int k(t)^T D k(t) dt).
+   Only statements, each closed by [exact], followed by Print Assumptions.
+   bmat / bmat_const / att_tensorN / att_isoN are GENERATED from epgpy/diffusion.py (Gen/Diffusion.v). *)
+From Coq Require Import Reals ZArith QArith Qreals List Bool.
+From Coquelicot Require Import Coquelicot.
+From EPG Require Import Scalar QI State Ops Views WfProof CInst DiffusionProofs.
+From EPG.Gen Require Import Diffusion.
+From EPG.Model Require Import Diffusion.
+Import ListNotations.
+
+(* (1) every b-matrix entry is the time integral of k_i(t) k_j(t) over the linear ramp k1 -> k2; caller's units
+   (tau in ms, k in rad/m); the generated entry carries unit_factor = (1/1000) * ((1/1000) * (1/1000)) *)
+Theorem C05_bmatrix_is_integral (tau k1i k1j k2i k2j : R) : tau <> 0%R ->
+  is_RInt (fun t => (kramp tau k1i k2i t * kramp tau k1j k2j t)%R) 0 tau
+          (bmat tau k1i k1j k2i k2j / unit_factor)%R.
+Proof. exact (bmatrix_is_integral tau k1i k1j k2i k2j). Qed.
+Print Assumptions C05_bmatrix_is_integral.
+
+(* (1') the same in the b-matrix's own units: t in s over [0, tau/1000], k in rad/mm; no factor left *)
+Theorem C05_bmatrix_is_integral_si (tau k1i k1j k2i k2j : R) : tau <> 0%R ->
+  is_RInt (fun t => (kramp (tau * ms_to_s) (k1i * radm_to_radmm) (k2i * radm_to_radmm) t *
+                     kramp (tau * ms_to_s) (k1j * radm_to_radmm) (k2j * radm_to_radmm) t)%R)
+          0 (tau * ms_to_s)%R (bmat tau k1i k1j k2i k2j).
+Proof. exact (bmatrix_is_integral_si tau k1i k1j k2i k2j). Qed.
+Print Assumptions C05_bmatrix_is_integral_si.
+
+Theorem C05_unit_factor : unit_factor = (1 / 1000 * (1 / 1000 * (1 / 1000)))%R /\ ms_to_s = (1 / 1000)%R /\ radm_to_radmm = (1 / 1000)%R.
+Proof. exact (conj eq_refl (conj eq_refl eq_refl)). Qed.
+Print Assumptions C05_unit_factor.
+
+(* (2) k2 = None, the allclose(k2 - k1, 0) branch, and the ramp formula at k2 = k1 coincide: k1_i k1_j tau *)
+Theorem C05_bmatrix_const (tau k1i k1j : R) :
+  bmat tau k1i k1j k1i k1j = bmat_const tau k1i k1j /\
+  bmat_const tau k1i k1j = (unit_factor * (k1i * k1j * tau))%R /\
+  is_RInt (fun _ => (k1i * k1j)%R) 0 tau (bmat_const tau k1i k1j / unit_factor)%R.
+Proof. exact (bmatrix_const tau k1i k1j). Qed.
+Print Assumptions C05_bmatrix_const.
+
+(* (3) b(-k1, -k2) = b(k1, k2): F-(k) = conj F+(-k) may be rebuilt from the attenuated F+ *)
+Theorem C05_bmatrix_even (tau k1i k1j k2i k2j : R) :
+  bmat tau (- k1i) (- k1j) (- k2i) (- k2j) = bmat tau k1i k1j k2i k2j /\
+  bmat_const tau (- k1i) (- k1j) = bmat_const tau k1i k1j.
+Proof. exact (bmatrix_even tau k1i k1j k2i k2j). Qed.
+Print Assumptions C05_bmatrix_even.
+
+Theorem C05_bmatrix_symmetric (tau k1i k1j k2i k2j : R) :
+  bmat tau k1i k1j k2i k2j = bmat tau k1j k1i k2j k2i.
+Proof. exact (bmatrix_symmetric tau k1i k1j k2i k2j). Qed.
+Print Assumptions C05_bmatrix_symmetric.
+
+(* (4) a scalar diffusivity behaves exactly as the isotropic tensor D*I (dimensions 1, 2, 3) *)
+Theorem C05_iso_equals_tensor (D : R) :
+  (forall b00, att_iso1 b00 D = att_tensor1 b00 D) /\
+  (forall b00 b01 b10 b11, att_iso2 b00 b01 b10 b11 D = att_tensor2 b00 b01 b10 b11 D 0 0 D) /\
+  (forall b00 b01 b02 b10 b11 b12 b20 b21 b22,
+     att_iso3 b00 b01 b02 b10 b11 b12 b20 b21 b22 D =
+     att_tensor3 b00 b01 b02 b10 b11 b12 b20 b21 b22 D 0 0 0 D 0 0 0 D).
+Proof. exact (iso_equals_tensor D). Qed.
+Print Assumptions C05_iso_equals_tensor.
+
+(* (5) the zero-wavenumber state is never attenuated in a gradient-free interval *)
+Theorem C05_k0_unattenuated (tau : R) :
+  bmat_const tau 0 0 = 0%R /\ bmat tau 0 0 0 0 = 0%R /\
+  (forall D, att_iso1 (bmat_const tau 0 0) D = 1%R) /\
+  (forall D00, att_tensor1 (bmat_const tau 0 0) D00 = 1%R) /\
+  (forall D, att_iso3 (bmat_const tau 0 0) (bmat_const tau 0 0) (bmat_const tau 0 0) (bmat_const tau 0 0) (bmat_const tau 0 0)
+                      (bmat_const tau 0 0) (bmat_const tau 0 0) (bmat_const tau 0 0) (bmat_const tau 0 0) D = 1%R) /\
+  (forall D00 D01 D02 D10 D11 D12 D20 D21 D22,
+     att_tensor3 (bmat_const tau 0 0) (bmat_const tau 0 0) (bmat_const tau 0 0) (bmat_const tau 0 0) (bmat_const tau 0 0)
+                 (bmat_const tau 0 0) (bmat_const tau 0 0) (bmat_const tau 0 0) (bmat_const tau 0 0)
+                 D00 D01 D02 D10 D11 D12 D20 D21 D22 = 1%R).
+Proof. exact (k0_unattenuated tau). Qed.
+Print Assumptions C05_k0_unattenuated.
+
+(* (6) attenuation <= 1: 1-D with D >= 0, and the full 3-D ramp with any positive semi-definite tensor *)
+Theorem C05_att_le_1_1d (tau k1 k2 D : R) : (0 <= tau)%R -> (0 <= D)%R ->
+  (att_tensor1 (bmat tau k1 k1 k2 k2) D <= 1)%R /\ (att_iso1 (bmat tau k1 k1 k2 k2) D <= 1)%R /\
+  (att_tensor1 (bmat_const tau k1 k1) D <= 1)%R.
+Proof. exact (att_le_1_1d tau k1 k2 D). Qed.
+Print Assumptions C05_att_le_1_1d.
+
+Theorem C05_att_le_1_psd (tau x1 y1 z1 x2 y2 z2 D00 D01 D02 D10 D11 D12 D20 D21 D22 : R) :
+  (0 <= tau)%R ->
+  (forall x y z, (0 <= qf D00 D01 D02 D10 D11 D12 D20 D21 D22 x y z)%R) ->
+  (att_tensor3 (bmat tau x1 x1 x2 x2) (bmat tau x1 y1 x2 y2) (bmat tau x1 z1 x2 z2)
+               (bmat tau y1 x1 y2 x2) (bmat tau y1 y1 y2 y2) (bmat tau y1 z1 y2 z2)
+               (bmat tau z1 x1 z2 x2) (bmat tau z1 y1 z2 y2) (bmat tau z1 z1 z2 z2)
+               D00 D01 D02 D10 D11 D12 D20 D21 D22 <= 1)%R.
+Proof. exact (att_le_1_psd tau x1 y1 z1 x2 y2 z2 D00 D01 D02 D10 D11 D12 D20 D21 D22). Qed.
+Print Assumptions C05_att_le_1_psd.
+
+(* (7) the rational functions executed by the model are the generated real formulas *)
+Theorem C05_bmatQ_correct (tau a b c d : Q) :
+  Q2R (bmatQ tau a b c d) = bmat (Q2R tau) (Q2R a) (Q2R b) (Q2R c) (Q2R d) /\
+  Q2R (bmat_constQ tau a b) = bmat_const (Q2R tau) (Q2R a) (Q2R b).
+Proof. exact (bmatQ_correct tau a b c d). Qed.
+Print Assumptions C05_bmatQ_correct.
+
+(* (8) D._apply of the array model, as a function of the phase-state number; it keeps the state well-formed *)
+Theorem C05_D_apply_view (S : ScalOps) (L : ScalLaws S) (aT aL : Z -> S) (s : sm S) (n : nat) (k : Z) :
+  shaped S s n ->
+  get S (d_apply aT aL s) k =
+  mk3 (kmul (aT k) (fp (get S s k))) (kconj (kmul (aT (- k)%Z) (fp (get S s (- k)%Z))))
+      (kmul (aL k) (fz (get S s k))).
+Proof. exact (get_d_apply S L aT aL s n k). Qed.
+Print Assumptions C05_D_apply_view.
+
+Theorem C05_D_apply_wf (S : ScalOps) (L : ScalLaws S) (aT aL : Z -> S) (s : sm S) :
+  (forall k, aL (- k)%Z = kconj (aL k)) -> wf S s -> wf S (d_apply aT aL s).
+Proof. exact (wf_d_apply S L aT aL s). Qed.
+Print Assumptions C05_D_apply_wf.
+
+(* (9) one block [RF matrix; shift d; D] is the linear map with entries (RF entry) * (attenuation of the target) *)
+Theorem C05_block_step (S : ScalOps) (L : ScalLaws S) (B : block S) (s : sm S) (c : comp) (k : Z) :
+  block_ok S B -> wf S s ->
+  cget S c (get S (apply_block B s) k) =
+  kmul (att S B c k)
+       (sumc S (fun c' => kmul (ment S (b_rf B) c c') (cget S c' (get S s (k - delta c (b_d B))%Z)))).
+Proof. exact (block_step S L B s c k). Qed.
+Print Assumptions C05_block_step.
+
+(* (10) PATHWAY THEOREM: after any number of blocks, every coefficient is the sum over all 3^n component
+   histories of (product of RF entries) * (product of attenuations met) * (initial coefficient the pathway starts in) *)
+Theorem C05_pathsum (S : ScalOps) (L : ScalLaws S) (bs : list (block S)) (s0 : sm S) (c : comp) (k : Z) :
+  List.Forall (block_ok S) bs -> wf S s0 ->
+  cget S c (get S (run_blocks bs s0) k) =
+  lsum S (fun p => kmul (kmul (amp S (rev bs) p c) (attp S (rev bs) p c k))
+                        (cget S (cstart p c) (get S s0 (kstart S (rev bs) p c k))))
+       (allpaths (length bs)).
+Proof. exact (pathsum S L bs s0 c k). Qed.
+Print Assumptions C05_pathsum.
+
+Theorem C05_pathsum_from_equilibrium (S : ScalOps) (L : ScalLaws S) (bs : list (block S)) (pd : S) (c : comp) (k : Z) :
+  List.Forall (block_ok S) bs -> kreal S pd ->
+  cget S c (get S (run_blocks bs (init pd)) k) =
+  lsum S (fun p => if (match cstart p c with Cz => true | _ => false end && (kstart S (rev bs) p c k =? 0)%Z)%bool
+                   then kmul (kmul (amp S (rev bs) p c) (attp S (rev bs) p c k)) pd else k0)
+       (allpaths (length bs)).
+Proof. exact (pathsum_init S L bs pd c k). Qed.
+Print Assumptions C05_pathsum_from_equilibrium.
+
+Theorem C05_allpaths_count (n : nat) : length (allpaths n) = (3 ^ n)%nat.
+Proof. exact (allpaths_length n). Qed.
+Print Assumptions C05_allpaths_count.
+
+(* (11) attenuation is multiplicative along a pathway: product of att_of(b_j) = att_of(sum b_j) *)
+Theorem C05_attp_additive (S : ScalOps) (Bv : Type) (bzero : Bv) (bplus : Bv -> Bv -> Bv) (att_of : Bv -> S) :
+  att_of bzero = k1 -> (forall x y, att_of (bplus x y) = kmul (att_of x) (att_of y)) ->
+  forall (brb : list (block S * (comp -> Z -> Bv))) p c k,
+  List.Forall (fun Bb : block S * (comp -> Z -> Bv) => forall c0 k0, att S (fst Bb) c0 k0 = att_of (snd Bb c0 k0)) brb ->
+  attp S (map fst brb) p c k = att_of (bacc S Bv bzero bplus brb p c k).
+Proof. exact (attp_additive S Bv bzero bplus att_of). Qed.
+Print Assumptions C05_attp_additive.
+
+(* (12) K = C, 1-D states with kvalue kv, generated formulas: the blocks [T; S(d); D(tau, D, k=d)] satisfy the
+   hypotheses of (10); each attenuation met is exp(-b:D), b:D / unit_factor is the integral of D k(t)^2 over the
+   interval (k(t) ramps from kv (k - delta) to kv k; constant for Z), and along a pathway the factors multiply to
+   exp(- sum of the interval integrals) *)
+Theorem C05_phys_block_ok (m : mat3 Cops) (d : Z) (tau D kv : R) :
+  wf_mat Cops m -> block_ok Cops (phys_block m d tau D kv).
+Proof. exact (phys_block_ok m d tau D kv). Qed.
+Print Assumptions C05_phys_block_ok.
+
+Theorem C05_phys_att (m : mat3 Cops) (d : Z) (tau D kv : R) (c : comp) (k : Z) :
+  att Cops (phys_block m d tau D kv) c k = RtoC (exp (- phys_b tau D kv d c k)).
+Proof. exact (phys_att m d tau D kv c k). Qed.
+Print Assumptions C05_phys_att.
+
+Theorem C05_phys_b_is_integral (tau D kv : R) (d : Z) (c : comp) (k : Z) : tau <> 0%R ->
+  is_RInt (fun t => (D * (kramp tau (kv * IZR (k - delta c d)) (kv * IZR k) t *
+                          kramp tau (kv * IZR (k - delta c d)) (kv * IZR k) t))%R) 0 tau
+          (phys_b tau D kv d c k / unit_factor)%R.
+Proof. exact (phys_b_is_integral tau D kv d c k). Qed.
+Print Assumptions C05_phys_b_is_integral.
+
+Theorem C05_phys_pathway_attenuation (kv : R) (qs : list (mat3 Cops * Z * R * R)) (p : list comp) (c : comp) (k : Z) :
+  attp Cops (map fst (map (pblock kv) qs)) p c k =
+  RtoC (exp (- bacc Cops R 0%R Rplus (map (pblock kv) qs) p c k)).
+Proof. exact (phys_pathway_attenuation kv qs p c k). Qed.
+Print Assumptions C05_phys_pathway_attenuation.
+
+(* non-vacuity on the executed instance: a concrete well-formed block sequence, and the pathway sum evaluated *)
+Example C05_nonvacuous :
+  let m : mat3 QIops := @mkM QIops (@mk3 QIops (qr 1 2) (qr 1 2) (qi 0 1 (-1) 1))
+                                    (@mk3 QIops (qr 1 2) (qr 1 2) (qi 0 1 1 1))
+                                    (@mk3 QIops (qi 0 1 (-1) 2) (qi 0 1 1 2) (qr 0 1)) in
+  let B : block QIops := mkB m 1%Z (fun k => qr 1 (Pos.of_nat (1 + Z.abs_nat k))) (fun k => qr 1 (Pos.of_nat (2 + Z.abs_nat k))) in
+  wf_mat QIops m /\
+  keqb (fp (get QIops (run_blocks [B; B] (@init QIops (qr 1 1))) 2%Z))
+       (lsum QIops (fun p => kmul (kmul (amp QIops (rev [B; B]) p Cp) (attp QIops (rev [B; B]) p Cp 2%Z))
+                                  (cget QIops (cstart p Cp) (get QIops (@init QIops (qr 1 1)) (kstart QIops (rev [B; B]) p Cp 2%Z))))
+             (allpaths 2)) = true /\
+  keqb (fp (get QIops (run_blocks [B; B] (@init QIops (qr 1 1))) 2%Z)) k0 = false.
+Proof. split; [|split]; vm_compute; repeat split; reflexivity. Qed.
